@@ -405,15 +405,15 @@ func (r *resolver) applyDeviation(y *Module, d *Deviation) error {
 	}
 	if d.Delete != nil {
 		if d.Delete.units != "" {
-			if hasType.Units() == d.Delete.units {
+			if hasType.Units() != d.Delete.units {
 				return fmt.Errorf("cannot delete units '%s' != '%s' on %s",
 					d.Delete.units, hasType.Units(), d.Ident())
 			}
 			hasType.setUnits("")
 		}
 		if d.Delete.HasDefault() {
-			if hasType.DefaultValue() == d.Delete.DefaultValue() {
-				return fmt.Errorf("cannot delete units '%s' != '%s' on %s",
+			if !isArrayStringEqual(defaultAsStrings(hasType.DefaultValue()), defaultAsStrings(d.Delete.DefaultValue())) {
+				return fmt.Errorf("cannot delete default '%s' != '%s' on %s",
 					d.Delete.Default(), hasType.DefaultValue(),
 					d.Ident())
 			}
@@ -452,6 +452,17 @@ func (r *resolver) applyDeviation(y *Module, d *Deviation) error {
 			target.(HasMusts).setMusts(musts)
 		}
 
+	}
+	return nil
+}
+
+// defaultAsStrings gives the default of a leaf (string) and of a leaf-list or deviate ([]string) the same shape
+func defaultAsStrings(d interface{}) []string {
+	switch x := d.(type) {
+	case string:
+		return []string{x}
+	case []string:
+		return append([]string{}, x...)
 	}
 	return nil
 }
